@@ -98,9 +98,11 @@ func c16NoLimitHuge(w *W) {
 	w.Settle()
 	var lb [9]byte
 	lb[0] = 1
-	binary.BigEndian.PutUint64(lb[1:], 1<<62)
+	ann := []uint64{1 << 62, ^uint64(0), 1 << 63, ^uint64(0) - 63}[w.Choose(simrt.SShape, 4)] // 2^62, -1, MinInt64, -64
+	binary.BigEndian.PutUint64(lb[1:], ann)
+	w.SetShape("announced", fmt.Sprintf("%#x", ann))
 	w.Fault("oversize")
-	w.Op("hostile: MaxRecvSize 0, announces 2^62 bytes")
+	w.Op("hostile: MaxRecvSize 0, announces %#x bytes", ann)
 	if tran == "simipc" {
 		c.Write(lb[:])
 	} else {
